@@ -111,10 +111,10 @@ def build(name, spec, X, seed=0):
         expect = {"dist": "kl", "mode": "ova", "A": None}
     elif name == "Kauri":
         tag = spec.get("kernel", "linear")
-        if tag in ("pre_psd", "pre_indef", "pre_int"):
+        if tag.startswith("pre_"):
             kw["kernel"] = "precomputed"
-            y = aff.sym_matrix(len(X), seed, {"pre_psd": "psd", "pre_indef": "indef", "pre_int": "int"}[tag])
-            expect = {"A": np.asarray(y, dtype=float)}
+            _, y, Aref = aff.kernel_reference(tag, X, seed)
+            expect = {"A": np.asarray(Aref, dtype=float)}
         elif tag == "callable":
             kw["kernel"] = aff.my_kernel_pair
             expect = {"A": aff.my_kernel(X)}
